@@ -12,7 +12,7 @@
                         calls : Seq [id, callee, binds : Seq [n, e], dis : e,
                                      mode, pre, vol],
                         ret : Seq [n, e]]            (calls in dependency order)
-     p.top       : [callee, args : Seq [n, e]]
+     p.top       : [callee, mode, args : Seq [n, e]]   (mode "none" | "array" | "map": a mapped top-level call)
 
    types        t = [b, a, m, ia]     base name, array dim, typed-map flag,
                                       array dim inside the typed map
@@ -330,7 +330,7 @@ EvalCalls(p, pl, env, k, path, ctx) ==
 
 EvalCall(p, pl, env, c, path, ctx) ==
     LET callee == Callee(p, c.callee)
-        cpath == path \o "." \o c.id
+        cpath == IF path = "" THEN c.id ELSE path \o "." \o c.id      \* (no enclosing pipeline: a mapped top-level call)
         ot == StructTypeOfOuts(p, c.callee)
         onames == {callee.outs[i].n : i \in DOMAIN callee.outs}
         dv == IF c.dis.k = "none" THEN [v |-> VBool(FALSE), pv |-> {}, dm |-> {}] ELSE Eval(p, env, c.dis)
@@ -441,6 +441,22 @@ Dedup(inv, seen) ==
          IN IF key \in seen THEN Dedup(Tail(inv), seen)
             ELSE <<h>> \o Dedup(Tail(inv), seen \cup {key})
 
+(* a mapped top-level call (`map call TOP(x = split [...])` as the invocation): the call
+   evaluated like a mapped call of a pipeline without calls around it; `outs` is keyed by
+   the fork ("0", "1", ... or the keys of the map), topval is the recorded value - an array
+   or a map of one struct of outputs per fork *)
+RunMapped(q, pl, top) ==
+    LET c == [id |-> pl.name, callee |-> pl.name, binds |-> top.args, dis |-> [k |-> "none"],
+              mode |-> top.mode, pre |-> FALSE, vol |-> FALSE]
+        root == [name |-> "", ins |-> <<>>, outs |-> <<>>, calls |-> <<c>>, ret |-> <<>>, retain |-> <<>>]
+        env0 == [self |-> <<>>, selfpv |-> <<>>, selfdm |-> <<>>, selft |-> <<>>, res |-> <<>>]
+        r == EvalCall(q, root, env0, c, "", [idx |-> <<>>, extra |-> {}, xdm |-> {}, vol |-> FALSE])
+        keyed == IF IsNull(r.val) THEN <<>>
+                 ELSE IF top.mode = "array" THEN [k \in {ToString(i - 1) : i \in DOMAIN r.val.a} |->
+                                                    r.val.a[CHOOSE i \in DOMAIN r.val.a : ToString(i - 1) = k]]
+                 ELSE r.val.o
+    IN [outs |-> keyed, topval |-> r.val, inv |-> Dedup(r.inv, {}), wk |-> r.wk]
+
 Run(p) ==
     LET pl == ByName(p.pipelines, p.top.callee)
         q == [p EXCEPT !.structs = AllStructs(p)]
@@ -448,7 +464,10 @@ Run(p) ==
         A == [v |-> [x \in pn |-> Conv(q, Lookup(pl.ins, x).t, Lookup(p.top.args, x).e.v)],
               pv |-> [x \in pn |-> {}], dm |-> [x \in pn |-> {}]]
         r == EvalPipe(q, pl, A, pl.name, [idx |-> <<>>, extra |-> {}, xdm |-> {}, vol |-> FALSE])
-    IN [r EXCEPT !.inv = Dedup(r.inv, {})]
+    IN IF p.top.mode # "none" THEN RunMapped(q, pl, p.top)
+       ELSE [r EXCEPT !.inv = Dedup(r.inv, {})]
+(* the top-level outputs as recorded *)
+TopValue(p, r) == IF p.top.mode # "none" THEN r.topval ELSE VObj(r.outs)
 
 (* Files (C04, C13, C14) *)
 RECURSIVE FilesIn(_)
